@@ -306,7 +306,7 @@ class StatusAttribute(Attribute):
         if isinstance(val, bool):
             return int(val)
 
-        if isinstance(val, float) and val % 1:
+        if int(val) != val:  # (any kind of number: float, numpy.float32, Fraction, ...)
             raise ValueError(f"Status cannot be a fraction; got {val}")
 
         val = int(val)
